@@ -39,7 +39,73 @@ func permutations(n int) [][]int {
 	return out
 }
 
+// Execute(w, nil): no data at all - names resolve in the global scope and the built-ins, unknown names fail
+func genNilDataRef(r *Rng, out *outFiles) {
+	cfg := tmplCfg{ap: ":", tp: "t:", global: map[string]any{"g1": "G"}}
+	type piece struct {
+		src, want string
+		fails     bool
+	}
+	pool := []piece{
+		{`<p id="a">static</p>`, `<p id="a">static</p>`, false},
+		{`<b :text="${'lit'}"></b>`, `<b>lit</b>`, false},
+		{`<i :if="${true}">y</i><i :else>n</i>`, `<i>y</i>`, false},
+		{`<u :text="${g1}"></u>`, `<u>G</u>`, false},
+		{`<s :text="${len('abc')}"></s>`, `<s>3</s>`, false},
+		{`<q :with="v := ${1 + 2}" :text="${v}"></q>`, `<q>3</q>`, false},
+		{`<em :text="${nosuch}"></em>`, ``, true},
+	}
+	var src, want strings.Builder
+	fails := false
+	for i, n := 0, 1+r.Intn(4); i < n; i++ {
+		p := pool[r.Intn(len(pool))]
+		src.WriteString(p.src)
+		if !fails {
+			if p.fails {
+				fails = true
+			} else {
+				want.WriteString(p.want)
+			}
+		}
+	}
+	caseLine := "fuzz ref-nildata " + strconv.Quote(src.String())
+	noteInput(caseLine)
+	why, line := "", "REF ok"
+	func() {
+		defer func() {
+			if x := recover(); x != nil {
+				why = fmt.Sprintf("Execute(w, nil) panicked on %q: %v", src.String(), x)
+			}
+		}()
+		m, le := newManager(cfg, [][2]string{{"n.html", src.String()}})
+		if le != "" {
+			why = "template did not load: " + le
+			return
+		}
+		tpl, _ := m.GetTemplate("n.html")
+		var sb strings.Builder
+		err := tpl.Execute(&sb, nil)
+		switch {
+		case fails && err == nil:
+			why = fmt.Sprintf("Execute(w, nil) of %q: an unknown name did not fail (output %q)", src.String(), sb.String())
+		case !fails && err != nil:
+			why = fmt.Sprintf("Execute(w, nil) of %q fails: %v", src.String(), err)
+		case !fails && sb.String() != want.String():
+			why = fmt.Sprintf("Execute(w, nil) of %q renders %q, expected %q", src.String(), sb.String(), want.String())
+		}
+	}()
+	if why != "" {
+		line = "REF differs"
+	}
+	out.count("ref-nildata")
+	out.put(caseLine, line, verdict("C06", why), verdict("C05", why))
+}
+
 func genRefCase(r *Rng, out *outFiles) {
+	if r.Chance(6) {
+		genNilDataRef(r, out)
+		return
+	}
 	if r.Chance(35) {
 		genRemoveRef(r, out)
 		return
